@@ -11,6 +11,11 @@ CHECKS = {
    note='Trusts the reference disassembler / listing reader in vt/refasm.py (written from docs.md operand shapes) and that every decompiler loop iteration reads through Tape.read (true for the code read).',
    design='3/C12'),
 }
+CHECKS['C11'] = dict(
+   technique='grammar-based Hypothesis generation of source trees x spelling vectors; differential against a reference assembler; feature-ablation attribution of failures',
+   text='Generated-input search over abstract programs (all 92 ops + NOP codes, nesting <= 4, variables, macros, both comptime forms, hoisted conditions) rendered under drawn spelling vectors (names / aliases / letter case / brace vs END_ / value prefixes / push sizes / comments incl. hostile comment bodies). Whatever compile_script accepts must equal the reference encoding byte for byte; unencodable programs must be rejected; Script.from_src must agree. Vacuity guards keep canonical acceptance >= 95 % and overall >= 50 %.',
+   note='Trusts the reference assembler and lowering rules (vt/refasm.py, vt/render.py) written from language_spec.md / docs.md; rejections of encodable sources are outside the property and only counted.',
+   design='3/C11')
 NOT_YET = {}
 for i in range(1, 21):
     pid = 'C%02d' % i
